@@ -129,7 +129,10 @@ func (v *printer) Printf(format string, args ...interface{}) {
 }
 
 func (v *printer) Println(args ...interface{}) {
-	if v.enab.Enabled(v.level) {
+	// The level check only avoids formatting work for disabled levels. From
+	// DPanic upward the delegate must always be called: it carries the
+	// terminal action (panic/exit) even when the level itself is disabled.
+	if v.level >= zapcore.DPanicLevel || v.enab.Enabled(v.level) {
 		v.print(sprintln(args))
 	}
 }
